@@ -622,6 +622,11 @@ pub struct SysReport {
     pub expected_err: Vec<String>,
     pub checked: u64,
     pub failures: Vec<String>,
+    /// failures of the base phase (real build vs reference interpreter): (rendered without props, properties that
+    /// certainly apply, properties the scenario was written for).  A scenario property is attributed only if EVERY
+    /// failing base scenario was written for it (see run_all): a change that breaks everything is a C01 matter, a change
+    /// that only breaks the scenarios about one feature is attributed to that feature's property.
+    pub base_pending: Vec<(String, String, String, Vec<&'static str>, Vec<&'static str>)>,
 }
 
 /// properties a content mismatch of this scenario speaks about (besides C01)
@@ -658,7 +663,33 @@ fn scenario_props(name: &str) -> &'static [&'static str] {
     }
 }
 
+fn scenario_files_json(sc: &Scenario) -> String {
+    format!(
+        "\"files\":{{{}}},\"inputs\":{:?},\"recursive\":{}",
+        sc.files.iter().map(|(p, c)| format!("{}:{}", crate::jstr(p), crate::jstr(&String::from_utf8_lossy(&c[..c.len().min(400)])))).collect::<Vec<_>>().join(","),
+        sc.inputs, sc.recursive
+    )
+}
+
 impl SysReport {
+    fn fail_base(&mut self, sc: &Scenario, phase: &str, detail: String, certain: &[&'static str], scenario_tags: &[&'static str]) {
+        self.base_pending.push((format!("\"scenario\":{},\"phase\":{},{}", crate::jstr(sc.name), crate::jstr(phase), scenario_files_json(sc)),
+            crate::jstr(&detail), sc.name.to_string(), certain.to_vec(), scenario_tags.to_vec()));
+    }
+
+    fn push_rendered(&mut self, input: &str, detail_json: &str, props: &[&str]) {
+        let mut ps: Vec<&str> = props.to_vec();
+        ps.sort();
+        ps.dedup();
+        let fresh = ps.iter().any(|p| self.failures.iter().filter(|f| f.contains(&format!("\"{p}\""))).count() < 2);
+        if fresh {
+            self.failures.push(format!(
+                "{{\"fn\":\"Txtpp::run\",\"props\":[{}],\"input\":{{{}}},\"expected\":\"see phase\",\"actual\":{}}}",
+                ps.iter().map(|p| format!("\"{p}\"")).collect::<Vec<_>>().join(","), input, detail_json
+            ));
+        }
+    }
+
     fn fail(&mut self, sc: &Scenario, phase: &str, detail: String, props: &[&str]) {
         let mut ps: Vec<&str> = props.to_vec();
         ps.sort();
@@ -760,7 +791,7 @@ pub fn run_all(work: &Path) -> SysReport {
     let mut jobs: Vec<(usize, bool)> = (0..scs.len()).flat_map(|i| [(i, true), (i, false)]).collect();
     jobs.sort_by_key(|(i, _)| !scs[*i].name.starts_with("timed_")); // the slow ones first
     let next = std::sync::atomic::AtomicUsize::new(0);
-    let total = std::sync::Mutex::new(SysReport { expected_err: vec![], checked: 0, failures: vec![] });
+    let total = std::sync::Mutex::new(SysReport { expected_err: vec![], checked: 0, failures: vec![], base_pending: vec![] });
     std::thread::scope(|sp| {
         for _ in 0..16 {
             sp.spawn(|| loop {
@@ -774,10 +805,27 @@ pub fn run_all(work: &Path) -> SysReport {
                 t.checked += r.checked;
                 t.expected_err.extend(r.expected_err);
                 t.failures.extend(r.failures);
+                t.base_pending.extend(r.base_pending);
             });
         }
     });
     let mut t = total.into_inner().unwrap();
+    // scenario-specific properties: only those every failing base scenario was written for
+    let pend = std::mem::take(&mut t.base_pending);
+    let mut common: Option<BTreeSet<&'static str>> = None;
+    for (_, _, _, _, tags) in &pend {
+        let s: BTreeSet<&'static str> = tags.iter().cloned().collect();
+        common = Some(match common {
+            None => s,
+            Some(c) => c.intersection(&s).cloned().collect(),
+        });
+    }
+    let common: Vec<&'static str> = common.unwrap_or_default().into_iter().collect();
+    for (input, detail_json, _name, certain, _) in &pend {
+        let mut ps: Vec<&str> = certain.clone();
+        ps.extend(common.iter().cloned());
+        t.push_rendered(input, detail_json, &ps);
+    }
     late_activity_check(work, &mut t);
     t.failures.truncate(60);
     t
@@ -843,11 +891,10 @@ fn prestate(kind: &str, e: &[u8]) -> Option<Vec<u8>> {
 }
 
 fn run_one(work: &Path, sc: &Scenario, tn: bool) -> SysReport {
-    let mut rep = SysReport { expected_err: vec![], checked: 0, failures: vec![] };
+    let mut rep = SysReport { expected_err: vec![], checked: 0, failures: vec![], base_pending: vec![] };
     let refroot = work.join("ref");
     let root = work.join("real");
     let sprops = scenario_props(sc.name);
-    let with = |base: &[&'static str]| -> Vec<&'static str> { base.iter().chain(sprops.iter()).cloned().collect() };
     let exp = reference(&refroot, sc, tn);
     let initial: Tree = sc.files.iter().map(|(p, c)| (PathBuf::from(p), c.clone())).collect();
     let is_log = |p: &Path| p.file_name().map(|n| n == "count.log").unwrap_or(false);
@@ -874,18 +921,19 @@ fn run_one(work: &Path, sc: &Scenario, tn: bool) -> SysReport {
         }
         Ok(v) => {
             if *v != exp.ok {
-                let p = if *v { with(&["C04"]) } else { with(&["C01"]) };
-                rep.fail(sc, &base_phase, format!("verdict ok={} but the semantics prescribe ok={}", v, exp.ok), &p);
+                // a wrong verdict: false success is a C04 matter, a spurious failure a C01 matter
+                rep.fail_base(sc, &base_phase, format!("verdict ok={} but the semantics prescribe ok={}", v, exp.ok), if *v { &["C04"] } else { &["C01"] }, sprops);
             } else if exp.ok {
                 if let Some(d) = diff_trees(&exp.tree, &base_tree, &never) {
-                    let mut p = with(&["C01"]);
-                    if !tn {
-                        p.push("C13");
+                    // the tree differs from what the semantics prescribe: C01, plus what the difference itself says
+                    // (a source or decoy touched, a stray path, only line endings, only the final terminator)
+                    let mut p: Vec<&'static str> = vec!["C01"];
+                    for x in diff_props(&exp.tree, &base_tree, &initial, true) {
+                        if x != "C01" {
+                            p.push(x);
+                        }
                     }
-                    for x in diff_props(&exp.tree, &base_tree, &initial, false) {
-                        p.push(x);
-                    }
-                    rep.fail(sc, &base_phase, d, &p);
+                    rep.fail_base(sc, &base_phase, d, &p, sprops);
                 }
             } else {
                 for (p, b) in &initial {
